@@ -335,7 +335,7 @@ def script_of(c, structs, links=()):
     files = [n for n in c["inputs"] if node_kind(n, structs) == 0 and n not in links]
     lk = [n for n in c["inputs"] if n in links]
     dirs = [n for n in c["inputs"] if node_kind(n, structs) in (3, 4)]
-    s = "echo %s >> run.log; if [ -f fail.%s ]; then . ./fail.%s; fi; " % (name, name, name)
+    s = "echo %s >> run.log; %sif [ -f fail.%s ]; then . ./fail.%s; fi; " % (name, "sleep %s; " % c["slow"] if c.get("slow") else "", name, name)
     # declared file inputs by content, directories by listing, symbolic links by their text (never through the link)
     s += "h=`(echo %s; cat %s; ls %s; %s) 2>/dev/null | cksum`; " % (name, " ".join(files) if files else "/dev/null", " ".join(dirs) if dirs else "/dev/null",
                                                                      "; ".join("readlink %s" % l for l in lk) if lk else "true")
@@ -371,6 +371,7 @@ def description(h):
 class Graph:
     def __init__(self, h):
         self.h = h
+        self.skip = set()
         self.structs = set(h["structs"])
         self.cmds = {c["name"]: c for c in h["cmds"]}
         self.order = [c["name"] for c in h["cmds"]]
@@ -387,6 +388,7 @@ class Graph:
                 ty = set()
                 if self.cmds[p]["tool"] == "phony" and node_kind(o, self.structs) == 1: ty.add("PV")
                 if self.cmds[c]["tool"] == "symlink": ty.add("SY")
+                if p in self.skip: ty.add("SK")
                 out.append((o, c, ty))
         return out
     def reach(self, f, allowed):
@@ -398,7 +400,7 @@ class Graph:
                     seen.add(c); todo.append(c)
         return seen
     def downstream(self, f):
-        return self.reach(f, {"PV", "SY"})
+        return self.reach(f, {"PV", "SY", "SK"})
 
 def apply_state(S, h, b, first):
     """Bring the undeclared failure causes and the sources into the state of build b."""
@@ -440,7 +442,7 @@ def apply_state(S, h, b, first):
             elif not os.path.exists(np_):
                 open(np_, "w").write("needed\n"); os.utime(np_, (t0 + 50, t0 + 50))
 
-def run_build(S, h, mode, drv, llb):
+def run_build(S, h, mode, drv, llb, skip=()):
     """-> dict(ok, executed (set of observable commands), observable (set), failures or None, status {cmd: process status}, raw)"""
     log = os.path.join(S, "run.log")
     if os.path.exists(log): os.unlink(log)
@@ -453,7 +455,7 @@ def run_build(S, h, mode, drv, llb):
         observable = set(n for n in g.order if g.cmds[n]["tool"] != "phony")
         return dict(ok=(rc == 0), rc=rc, executed=ran | logged, logged=logged, observable=observable, failures=None, status={}, raw=(out[-1500:], err[-800:]))
     _, lanes, cancel = mode.split("-")
-    rc, out, err = vlib.run_lines(drv, ["build %s %s %s %s %d - ." % (hx(S), hx("build.llbuild"), hx("build.db"), lanes, 1 if cancel == "cancel" else 0)], timeout=120)
+    rc, out, err = vlib.run_lines(drv, ["build %s %s %s %s %d - %s" % (hx(S), hx("build.llbuild"), hx("build.db"), lanes, 1 if cancel == "cancel" else 0, ",".join(skip) or ".")], timeout=120)
     if rc != 0 or not out or not out[0].startswith("ok="):
         return dict(crash=True, rc=rc, raw=(out, err[-1500:]))
     m = re.match(r"ok=(\d) failures=(\d+) errors=(\d+) events=(\S+)", out[0])
@@ -484,7 +486,7 @@ def final_state(S, h):
                 st[o] = ("dirfile", open(os.path.join(p, "f")).read() if os.path.isfile(os.path.join(p, "f")) else None)
     return st
 
-def predict(model, h, failset, S):
+def predict(model, h, failset, S, skip=()):
     """Evaluate the description with the extracted model's decision functions (fresh keep-going build)."""
     g = Graph(h)
     nodeval, executed, failures = {}, set(), 0
@@ -499,7 +501,7 @@ def predict(model, h, failset, S):
                 ins.append(1 if k == 1 else (2 if os.path.exists(os.path.join(S, i)) else 3))
         kind = failset.get(name, (None, 0))[0]
         x = 1 if kind in ("exit", "segv", "undeclared", "unwritable", "mkdir-blocked") else 0
-        a = model.ask("run %d 0 0 1 0 %s %d" % (TOOLS[c["tool"]], ".".join(str(v) for v in ins) if ins else "-", x))
+        a = model.ask("run %d 0 0 %d 0 %s %d" % (TOOLS[c["tool"]], 0 if name in skip else 1, ".".join(str(v) for v in ins) if ins else "-", x))
         v, ex, fl = a.split(" ")
         cmdval[name] = int(v)
         if ex == "1": executed.add(name)
@@ -535,8 +537,10 @@ def run_history(h, drv, llb, model_path):
         for b, bd in enumerate(h["builds"]):
             apply_state(S, h, b, b == 0)
             failset = bd["fail"]
-            pred = predict(model, h, failset, S) if (keepgoing and b == 0) else None
-            r = run_build(S, h, mode, drv, llb)
+            # a delegate that refuses to start some commands (only while something fails)
+            g.skip = set(h.get("skip", [])) if failset else set()
+            pred = predict(model, h, failset, S, g.skip) if (keepgoing and b == 0) else None
+            r = run_build(S, h, mode, drv, llb, sorted(g.skip))
             stats["builds"] += 1
             if r.get("crash"):
                 findings.append(("build-crash", "the build driver crashed or produced no answer in build %d" % b, rp(dict(build=b, raw=r["raw"])), True, "c10 driver"))
@@ -553,6 +557,7 @@ def run_history(h, drv, llb, model_path):
                     if d in g.reach(f, set()): key = "downstream-executed"
                     elif d in g.reach(f, {"PV"}): key = "launder-phony-virtual"; stats["launder_pv"] += 1
                     elif d in g.reach(f, {"SY"}): key = "launder-symlink-mustfollow"; stats["launder_sy"] += 1
+                    elif d in g.reach(f, {"SK"}): key = "launder-delegate-skip"
                     else: key = "launder-phony-virtual"; stats["launder_pv"] += 1
                     findings.append((key, "command %s was executed in build %d although it consumes (transitively) the outputs of %s, which failed in that build (%s, mode %s)" % (d, b, f, failset[f][0], mode),
                                      rp(dict(build=b, failed=f, executed_downstream=d, run_log=sorted(r["logged"]), executed=sorted(X))), True, "c10 oracle: no downstream execution"))
@@ -595,6 +600,7 @@ def run_history(h, drv, llb, model_path):
                     findings.append(("no-convergence-after-repair", "after every cause was removed the build still reports failure (mode %s)" % mode, rp(dict(build=b, raw=r["raw"])), True, "c10 oracle: convergence"))
                 elif not need <= X:
                     findings.append(("not-rerun-after-repair", "after repair the build did not execute %s (failed last time, or never run before)" % sorted(need - X), rp(dict(build=b, missing=sorted(need - X))), True, "c10 oracle: retry after repair"))
+            stats["cancelled_in_flight"] = stats.get("cancelled_in_flight", 0) + sum(1 for st in r["status"].values() if st == 2)
             for n in X & V:
                 launched.add(n)
                 st = r["status"].get(n)
@@ -673,29 +679,47 @@ CORPUS = [
          fail={"c0": ("segv", 0)}),
 ]
 
-def corpus_histories(modes_for_corpus):
+def corpus_history(idx, cmds, fail, mode, pattern, skip=()):
+    cmds = [dict(x) for x in cmds]
+    allouts = [o for x in cmds for o in x["outputs"]]
+    cmds.append(dict(name="all", tool="phony", inputs=allouts, outputs=["<all>"], need=None, blocked=None, contents=None))
+    return dict(idx=idx, cmds=cmds, structs=[], sources=["src0.txt"], leaf_virtual=False, mode=mode, pattern=pattern, skip=list(skip),
+                builds=[dict(fail=fail, edit=None), dict(fail=fail, edit=None), dict(fail={}, edit=None)])
+
+def S_(name, inputs, outputs, **kw):
+    d = dict(name=name, tool="shell", inputs=inputs, outputs=outputs, need=None, blocked=None, contents=None); d.update(kw); return d
+
+# c0 fails after a moment while the independent, slow c1 is still running (4 lanes): under a cancelling delegate c1 is
+# cancelled in flight (CancelledCommand); c2 consumes c1
+CANCEL_IN_FLIGHT = [S_("c0", ["src0.txt"], ["o_c0_0.out"], slow="0.3"), S_("c1", ["src0.txt"], ["o_c1_0.out"], slow="1.5"),
+                    S_("c2", ["o_c1_0.out"], ["o_c2_0.out"]), S_("c3", ["o_c0_0.out"], ["o_c3_0.out"])]
+# c0 fails; the delegate answers shouldCommandStart(c1) = false; c2 consumes c1
+DELEGATE_SKIP = [S_("c0", ["src0.txt"], ["o_c0_0.out"]), S_("c1", ["o_c0_0.out"], ["o_c1_0.out"]), S_("c2", ["o_c1_0.out"], ["o_c2_0.out"])]
+
+def corpus_histories():
     hs = []
     for ci, c in enumerate(CORPUS):
-        for mi, mode in enumerate(modes_for_corpus):
-            cmds = [dict(x) for x in c["cmds"]]
-            allouts = [o for x in cmds for o in x["outputs"]]
-            cmds.append(dict(name="all", tool="phony", inputs=allouts, outputs=["<all>"], need=None, blocked=None, contents=None))
-            hs.append(dict(idx=9000 + ci * 10 + mi, cmds=cmds, structs=[], sources=["src0.txt"], leaf_virtual=False, mode=mode, pattern="corpus%d" % ci,
-                           builds=[dict(fail=c["fail"], edit=None), dict(fail=c["fail"], edit=None), dict(fail={}, edit=None)]))
+        for mi, mode in enumerate(["drv-0-keepgoing", "drv-4-keepgoing", "cli-serial", "drv-4-cancel"]):
+            hs.append(corpus_history(9000 + ci * 10 + mi, c["cmds"], c["fail"], mode, "corpus%d" % ci))
+    for mi, mode in enumerate(["drv-4-cancel", "cli-j4", "drv-4-keepgoing"]):
+        hs.append(corpus_history(9100 + mi, CANCEL_IN_FLIGHT, {"c0": ("exit", 3)}, mode, "cancel-in-flight"))
+    for mi, mode in enumerate(["drv-0-keepgoing", "drv-4-keepgoing"]):
+        hs.append(corpus_history(9200 + mi, DELEGATE_SKIP, {"c0": ("exit", 1)}, mode, "delegate-skip", skip=["c1"]))
     return hs
 
 def run_corpus(chk, drv, llb, model):
-    hs = corpus_histories(["drv-0-keepgoing", "drv-4-keepgoing", "cli-serial", "drv-4-cancel"])
+    hs = corpus_histories()
     with ThreadPoolExecutor(max_workers=4) as ex:
         results = list(ex.map(lambda h: run_history(h, drv, llb, model), hs))
-    pv = sy = 0
+    pv = sy = cancelled = 0
     for h, (findings, stats) in zip(hs, results):
         chk.count((h["mode"], h["pattern"]), n=stats["builds"])
-        pv += stats["launder_pv"]; sy += stats["launder_sy"]
+        pv += stats["launder_pv"]; sy += stats["launder_sy"]; cancelled += stats.get("cancelled_in_flight", 0)
         for (key, what, rp, found, broken) in findings:
             chk.violation(key, what, rp, found_input=found, broken=broken)
     chk.cov["corpus_histories"] = len(hs)
     chk.cov["corpus_laundering_observations"] = dict(phony_virtual=pv, symlink_mustfollow=sy)
+    chk.cov["commands_cancelled_in_flight"] = cancelled
 
 # ---- repairs that change the DESCRIPTION (the recorded node value FailedInput / MissingInput must not be up to date)
 
